@@ -840,6 +840,8 @@ Qed.
 Definition ev_ok (ev : dns_event) : Prop :=
   match ev with
   | EvRsp _ _ _ pkt => Forall wdns_is_byte pkt
+  | EvQuery name _ _ _ => Forall wdns_is_byte name
+  | EvQueryRaw raw _ _ _ _ => Forall wdns_is_byte raw
   | _ => True
   end.
 
@@ -1174,4 +1176,162 @@ Proof.
   repeat split; auto. unfold sock_ok. cbn [ds_queries].
   apply Forall_forall. intros o Ho. apply in_map_iff in Ho. destruct Ho as (o' & <- & Ho').
   apply dns_done_slot_ok; auto. unfold sock_ok in Hs. rewrite Forall_forall in Hs. auto.
+Qed.
+
+(* --- the invariant is kept by every event --- *)
+Lemma Forall_set_nth : forall A (P : A -> Prop) l i x, Forall P l -> P x -> Forall P (dns_set_nth l i x).
+Proof.
+  induction l as [|y l IH]; intros i x Hl Hx; destruct i; simpl; auto; inv Hl; constructor; auto.
+Qed.
+
+Lemma Forall_removelast : forall A (P : A -> Prop) l, Forall P l -> Forall P (removelast l).
+Proof.
+  induction l as [|x l IH]; intros H; simpl; auto. inv H. destruct l; [constructor|]. constructor; auto.
+Qed.
+
+Lemma dns_split_dot_bytes : forall s, Forall wdns_is_byte s -> Forall (Forall wdns_is_byte) (dns_split_dot s).
+Proof.
+  induction s as [|c r IH]; intros H; cbn [dns_split_dot].
+  { repeat constructor. }
+  inv H. specialize (IH H3). destruct (c =? 46); [constructor; auto|].
+  destruct (dns_split_dot r) as [|seg t]; [constructor; [constructor; [assumption|constructor]|constructor]|].
+  inv IH. constructor; auto.
+Qed.
+
+Lemma dns_encode_labels_bytes : forall cap segs raw r,
+  Forall (Forall wdns_is_byte) segs -> Forall wdns_is_byte raw ->
+  dns_encode_labels cap segs raw = Ok r -> Forall wdns_is_byte r.
+Proof.
+  induction segs as [|sg segs IH]; intros raw r Hs Hr H; cbn [dns_encode_labels] in H.
+  { inv H. assumption. }
+  assert (H1 : Forall wdns_is_byte sg) by (inv Hs; assumption).
+  assert (Hsegs : Forall (Forall wdns_is_byte) segs) by (inv Hs; assumption).
+  destruct (wdns_len sg >? 63) eqn:E63; [discriminate|]. destruct (wdns_len sg =? 0); [discriminate|].
+  destruct (dns_vec_push cap raw (wdns_len sg)) as [raw1|] eqn:E1; [|discriminate].
+  destruct (dns_vec_extend cap raw1 sg) as [raw2|] eqn:E2; [|discriminate].
+  assert (B : wdns_is_byte (wdns_len sg)) by (pose proof (wdns_len_nonneg sg); unfold wdns_is_byte; lia).
+  destruct (dns_vec_push_ok _ _ _ _ E1 Hr B) as [A1 _].
+  destruct (dns_vec_extend_ok _ _ _ _ E2 A1 H1) as [A2 _].
+  eapply IH; eauto.
+Qed.
+
+Lemma dns_start_query_raw_ok : forall cfg s raw t m txid port s' r,
+  sock_ok cfg s -> Forall wdns_is_byte raw ->
+  dns_start_query_raw cfg s raw t m txid port = (s', r) ->
+  sock_ok cfg s' /\ ds_servers s' = ds_servers s.
+Proof.
+  intros cfg s raw t m txid port s' r Hs Hr H. pose proof dns_consts_pos as (P1 & P2 & P3).
+  unfold dns_start_query_raw, dns_find_free_query in H.
+  assert (New : wdns_len raw >? c_max_name cfg = false ->
+                slot_ok cfg (Some (QPending (mkPending raw t port txid None 0 dns_RETRANSMIT_DELAY 0 m)))).
+  { intros E. cbn. unfold pq_ok. cbn. repeat split; auto; lia. }
+  assert (App : Forall (slot_ok cfg) (ds_queries s ++ [None])).
+  { apply Forall_app. split; [exact Hs|]. repeat constructor. }
+  destruct (dns_find_none (ds_queries s) 0) as [i|].
+  - destruct (wdns_len raw >? c_max_name cfg) eqn:E; inv H; [auto|].
+    split; [|reflexivity]. apply Forall_set_nth; auto.
+  - destruct (ds_owned s).
+    + destruct (wdns_len raw >? c_max_name cfg) eqn:E; inv H; (split; [|reflexivity]); unfold sock_ok; cbn; auto.
+      apply Forall_set_nth; auto.
+    + inv H. auto.
+Qed.
+
+Lemma dns_step_sock_ok : forall cfg s ev,
+  cfg_ok cfg -> sock_ok cfg s -> ev_ok ev ->
+  sock_ok cfg (fst (dns_step cfg s ev)) /\ ds_servers (fst (dns_step cfg s ev)) = ds_servers s.
+Proof.
+  intros cfg s ev Hc Hs Hev. destruct ev as [name t txid port|raw t m txid port|i|i|now|src sp dp pkt]; cbn [dns_step].
+  - destruct (dns_start_query cfg s name t txid port) as [s' r] eqn:E. cbn [fst].
+    unfold dns_start_query in E. destruct name as [|c name]; [inv E; auto|].
+    set (nm := if last (c :: name) 0 =? 46 then removelast (c :: name) else c :: name) in E.
+    assert (Hn : Forall wdns_is_byte nm) by (unfold nm; destruct (_ =? 46); [apply Forall_removelast|]; exact Hev).
+    destruct (dns_encode_labels (c_max_name cfg) (dns_split_dot nm) []) as [raw|e|] eqn:El; try (inv E; auto; fail).
+    destruct (dns_vec_push (c_max_name cfg) raw 0) as [raw_name|] eqn:Ep; [|inv E; auto].
+    eapply dns_start_query_raw_ok; [exact Hs| |exact E].
+    assert (Hraw : Forall wdns_is_byte raw).
+    { eapply dns_encode_labels_bytes; [apply dns_split_dot_bytes; exact Hn|constructor|exact El]. }
+    eapply dns_vec_push_ok; [exact Ep|exact Hraw|unfold wdns_is_byte; lia].
+  - destruct (dns_start_query_raw cfg s raw t m txid port) as [s' r] eqn:E. cbn [fst].
+    eapply dns_start_query_raw_ok; eauto.
+  - destruct (dns_get_query_result s i) as [s' r] eqn:E. cbn [fst]. unfold dns_get_query_result in E.
+    destruct (nth_error (ds_queries s) i) as [[[pq|a|]|]|]; inv E; auto;
+      (split; [|reflexivity]); apply Forall_set_nth; cbn; auto.
+  - destruct (dns_cancel_query s i) as [s' r] eqn:E. cbn [fst]. unfold dns_cancel_query in E.
+    destruct (nth_error (ds_queries s) i) as [[q|]|]; inv E; auto;
+      (split; [|reflexivity]); apply Forall_set_nth; cbn; auto.
+  - destruct (dns_poll_spec cfg s now Hc Hs) as (txs & E).
+    destruct (dns_poll_sock_ok _ _ _ _ _ _ Hc Hs E) as (A & _ & B & _). rewrite E. cbn [fst]. auto.
+  - destruct Hc as [Hc1 Hc2].
+    destruct (dns_ingress_total cfg s src sp dp pkt Hc1 Hs Hev) as (s' & acc & E & A). rewrite E. cbn [fst].
+    split; [assumption|]. unfold dns_ingress in E. destruct (dns_accepts s src sp); [|inv E; reflexivity].
+    destruct (dns_process_total cfg s dp pkt Hc1 Hs Hev) as (s1 & E1 & _ & B & _). rewrite E1 in E. cbn [obind] in E. inv E. exact B.
+Qed.
+
+(* --- poll_at --- *)
+Lemma dns_poll_at_slots_le : forall qs acc,
+  (forall a, acc = Some a -> exists d, dns_poll_at_slots qs acc = Some d /\ d <= a) /\
+  (forall pq, In (Some (QPending pq)) qs -> exists d, dns_poll_at_slots qs acc = Some d /\ d <= dns_pq_deadline pq).
+Proof.
+  induction qs as [|q rest IH]; intros acc; cbn [dns_poll_at_slots].
+  { split; [intros a ->; exists a; split; [reflexivity|lia]|intros pq []]. }
+  destruct q as [[pq0|a0|]|]; try (destruct (IH acc) as [I1 I2]; split; [exact I1|];
+    intros pq [Hin|Hin]; [discriminate|auto]).
+  destruct (IH (dns_opt_min acc (dns_pq_deadline pq0))) as [I1 I2]. split.
+  - intros a ->. cbn [dns_opt_min]. destruct (I1 _ eq_refl) as (d & A & B). exists d. split; [assumption|lia].
+  - intros pq [Hin|Hin]; [|auto]. inv Hin.
+    destruct acc as [a|]; cbn [dns_opt_min]; destruct (I1 _ eq_refl) as (d & A & B); exists d; (split; [assumption|lia]).
+Qed.
+
+(* while a query is pending, poll_at reports a deadline no later than its own *)
+Lemma dns_poll_at_le_deadline : forall s h pq,
+  nth_error (ds_queries s) h = Some (Some (QPending pq)) ->
+  exists d, dns_poll_at s = Some d /\ d <= dns_pq_deadline pq.
+Proof.
+  intros s h pq H. unfold dns_poll_at. apply (dns_poll_at_slots_le (ds_queries s) None).
+  eapply nth_error_In; eauto.
+Qed.
+
+Lemma dns_poll_at_slots_gt : forall now qs acc d,
+  (forall a, acc = Some a -> now < a) ->
+  (forall pq, In (Some (QPending pq)) qs -> now < dns_pq_deadline pq) ->
+  dns_poll_at_slots qs acc = Some d -> now < d.
+Proof.
+  induction qs as [|q rest IH]; intros acc d Ha Hq H; cbn [dns_poll_at_slots] in H.
+  { auto. }
+  destruct q as [[pq0|a0|]|]; try (eapply IH; [exact Ha| |exact H]; intros; apply Hq; right; assumption).
+  eapply IH; [| |exact H].
+  - intros a Ea. assert (now < dns_pq_deadline pq0) by (apply Hq; left; reflexivity).
+    destruct acc as [x|]; cbn in Ea; inv Ea; [specialize (Ha x eq_refl)|]; lia.
+  - intros; apply Hq; right; assumption.
+Qed.
+
+(* after a dispatch at [now] every deadline of the query lies strictly after [now] *)
+Lemma dns_done_slot_deadline : forall cfg servers now o pq',
+  cfg_ok cfg -> slot_ok cfg o ->
+  dns_done_slot cfg servers now o = Some (QPending pq') -> now < dns_pq_deadline pq'.
+Proof.
+  intros cfg servers now o pq' Hc Ho H. pose proof dns_consts_pos as (P1 & P2 & P3).
+  destruct o as [[pq|a|]|]; cbn in H; try discriminate.
+  destruct (dns_dispatch_query_spec cfg servers now pq Hc Ho) as (r & E & C). rewrite E in H. inv H.
+  pose proof (pq_ok_pq2 cfg now pq Ho) as (_ & _ & N3 & _).
+  assert (HT : exists T, pq_timeout_at (dns_pq2 now pq) = Some T /\ now < T).
+  { unfold dns_pq2. destruct (_ <=? now) eqn:Et; cbn; eexists; split; try reflexivity; lia. }
+  destruct HT as (T & HT1 & HT2).
+  destruct C as [[-> _]|[[-> (C1 & C2 & _)]|(tx & dst & -> & _)]]; cbn in H1; inv H1.
+  - unfold dns_pq_deadline. rewrite HT1. lia.
+  - unfold dns_pq_deadline, dns_pq_sent. cbn. rewrite HT1. lia.
+Qed.
+
+(* no spinning: after a poll at [now] the reported deadline, if any, is strictly later *)
+Lemma dns_poll_no_spin : forall cfg s now s' txs hang d,
+  cfg_ok cfg -> sock_ok cfg s -> dns_poll cfg s now = Ok (s', txs, hang) ->
+  dns_poll_at s' = Some d -> now < d.
+Proof.
+  intros cfg s now s' txs hang d Hc Hs H Hd.
+  destruct (dns_poll_sock_ok _ _ _ _ _ _ Hc Hs H) as (_ & _ & _ & Eq).
+  unfold dns_poll_at in Hd. rewrite Eq in Hd.
+  eapply dns_poll_at_slots_gt; [| |exact Hd]; [intros; discriminate|].
+  intros pq Hin. apply in_map_iff in Hin. destruct Hin as (o & Ho & Hin).
+  eapply dns_done_slot_deadline; [exact Hc| |exact Ho].
+  unfold sock_ok in Hs. rewrite Forall_forall in Hs. auto.
 Qed.
